@@ -131,6 +131,30 @@ def acceptAll (st : St) : List TEv → Except String St
 
 end Mutex
 
+/-! ### Barrier: its only word is the state mutex's -/
+namespace Barrier
+open ALock.Atomic.Mutex
+
+/-- a `wait` locks and unlocks the state mutex within a poll: no call returns holding it, and a
+cancelled wait has given back its starvation ticket -/
+def retOK (s : Sys) (i : Nat) (call : String) : Except String Unit :=
+  match s.ags[i]? with
+  | none => .error "no such agent"
+  | some a => do
+    expect (!a.holder) s!"{call} returned while its agent holds the state mutex"
+    expect (call != "cancel" || !a.starved) "a cancelled wait keeps a starvation ticket of the state mutex"
+
+def accept (st : Mutex.St) : TEv → Except String Mutex.St
+  | .beg i c => .ok { st with calls := setCall st.calls i c }
+  | .atom i x => do
+    let stp ← Mutex.atomStep st.sys i x
+    pure { st with sys := step ords st.sys stp }
+  | .ret i _ => do
+    retOK st.sys i (st.calls.getD i "")
+    pure { st with calls := setCall st.calls i "" }
+
+end Barrier
+
 /-! ### Semaphore -/
 namespace Sem
 open ALock.Atomic.Sem
